@@ -2916,7 +2916,10 @@ func marshalDefault(in []any) (x Stack, c Condition, err error) {
 	}
 
 	// De-envelope needlessly enveloped value
-	in = deenvelopeSingleStack(in)
+	if in = deenvelopeSingleStack(in); len(in) == 0 {
+		err = errorf("Empty input")
+		return
+	}
 
 	// The first string value in a stack indicates the
 	// appropriate type of stack or condition
@@ -2971,13 +2974,13 @@ func marshalDefault(in []any) (x Stack, c Condition, err error) {
 }
 
 func deenvelopeSingleStack(in []any) []any {
-	if len(in) == 1 {
-		for {
-			if inner, ok := in[0].([]any); ok {
-				in = inner
-			} else {
-				break
-			}
+	// only a lone []any is an envelope; stop as
+	// soon as anything else (or nothing) is found.
+	for len(in) == 1 {
+		if inner, ok := in[0].([]any); ok {
+			in = inner
+		} else {
+			break
 		}
 	}
 
